@@ -81,7 +81,8 @@ PROPS = {
                 "rejection) encoded in random layouts; Canonicalize's bytes are compared (S) with Spec.Canon.canon of the spec-decoded tree; the "
                 "driver also checks that the canonical bytes decode to an equal value; the harness checks that canonicalising the canonical form "
                 "is the identity, and that another layout, another schema version (padding / list upgrade) and dirty bit-list padding give "
-                "identical bytes. Non-trivial: all; distinct by hash.",
+                "identical bytes. Directed: structs and list elements with > 8192 data words, and with pointer sections of 32767..65535 "
+                "slots (one non-null pointer near the front). Non-trivial: all; distinct by hash.",
         "trusted": COMMON_TRUSTED + ["Spec.Canon transcribes the canonicalisation section of the encoding document"],
         "assumptions": [],
         "shards": {"quick": 4, "thorough": 16},
@@ -132,7 +133,10 @@ PROPS = {
                 "PointerList.Set, List.SetStruct or Struct.CopyFrom into a struct of 0..3 data words and 0..3 pointers that holds old content, "
                 "or by CopyFrom inside the same message; the destination must read as the source truncated / zero-extended to the destination's "
                 "shape; then every data byte reachable from the source is overwritten in place and the copy must not change, and vice versa; "
-                "capabilities are compared by client identity and the destination's capability table must grow by one entry per copied capability.",
+                "capabilities are compared by client identity and the destination's capability table must grow by one entry per copied capability. "
+                "M ops `build copydata` / `build copygrow`: copyStruct's data path on real memory (sub-word and whole-word sections, old "
+                "content, the object behind; copygrow: while the deep copy of a 0..70000-byte blob moves the destination's single-segment "
+                "arena) against Model.CopyStruct.copyInto.",
         "trusted": COMMON_TRUSTED,
         "assumptions": ["reference counts of copied clients are covered by C10, not here"],
         "shards": {"quick": 4, "thorough": 16},
